@@ -31,24 +31,6 @@ EmitOK == LET fr == EmittedFrame
              /\ e.o = <<0, IF Kind \in 1..4 THEN (Seq0 + 1) % 65536 ELSE Seq0>> \o Wire(Tr, fr) \o <<-7>> \o PeerView(fr)
 
 (* ------------------------------------------------------------------ rx events (C06, C07, C09) *)
-RECURSIVE Unslip(_, _)
-Unslip(s, acc) == IF s = <<>> THEN [st |-> "eof", frame |-> acc]
-                  ELSE IF s[1] = 192 THEN [st |-> "ok", frame |-> acc]
-                  ELSE IF s[1] = 219
-                       THEN IF Len(s) < 2 THEN [st |-> "eof", frame |-> acc]
-                            ELSE IF s[2] = 220 THEN Unslip(Drop(s, 2), Append(acc, 192))
-                            ELSE IF s[2] = 221 THEN Unslip(Drop(s, 2), Append(acc, 219))
-                            ELSE [st |-> "ilseq", frame |-> acc]
-                       ELSE Unslip(Tail(s), Append(acc, s[1]))
-RECURSIVE Unvar(_, _, _, _)
-Unvar(s, i, acc, mul) == IF i >= Len(s) \/ i >= 4 THEN [ok |-> FALSE, len |-> 0, used |-> i]
-                         ELSE IF s[i + 1] < 128 THEN [ok |-> TRUE, len |-> acc + s[i + 1] * mul, used |-> i + 1]
-                         ELSE Unvar(s, i + 1, acc + (s[i + 1] % 128) * mul, mul * 128)
-Unframe(tr, w) == IF tr = 0 THEN Unslip(w, <<>>)
-                  ELSE LET p == Unvar(w, 0, 0, 1)
-                       IN IF ~p.ok \/ Len(w) - p.used < p.len THEN [st |-> "eof", frame |-> <<>>]
-                          ELSE [st |-> "ok", frame |-> SubSeq(w, p.used + 1, p.used + p.len)]
-
 MustFail == e.a[1] = 1        \* set by the generator for corruptions inside the family C07 guarantees to be caught
 RTr == e.a[2]
 Cfg == [tr |-> e.a[2], mem16 |-> e.a[3] = 1, cap |-> e.a[4]]
